@@ -12,7 +12,9 @@ THEOREMS = ['C17.print_parse', 'C17.parse_print_parse', 'C17.slice_floats_in_ord
             'C17.slice_verifies', 'C17.slice_verifies_of_verifyDb', 'C17.slice_verifies_nonvacuous',
             'C17.cex_disj_now_verifies', 'C17.cex_top_ess_now_verifies',
             'C17.slicer_text_is_the_model', 'C17.slicer_text_is_the_model_keys', 'C17.supporting_database_text_is_the_model',
-            'C17.translated_slices_verify', 'C17.translated_slicer_nonvacuous']
+            'C17.translated_slices_verify', 'C17.translated_slicer_nonvacuous',
+            'C17.parser_text_is_the_model', 'C17.encoder_text_is_the_model', 'C17.print_parse_text', 'C17.print_parse_text_nonvacuous',
+            'C17.printer_text_is_tokens', 'C17.print_parse_real_text', 'C17.printer_drops_blank_label']
 
 
 def hx(s):
@@ -152,6 +154,16 @@ def run(rep):
         if m != toks_sx(printed.split()):
             findings.append({'key': 'model-print', 'python': printed[-1200:], 'model': m[:600], 'source': s[-1200:],
                              'what': 'correspondence: Encoder.encode_string and the Lean model of it print different token sequences'})
+    # the TEXT: the Encoder as translated from ast.py (Pi2/Gen/MMAst.lean) through the model of Printer (Pi2/MMAstSupport.lean) vs the
+    # real Encoder.encode_string, character by character (only meaningful when the generated files were built: `ok`)
+    n_text = 0
+    mt = core.lean_gen(['mmtext ' + d for d, _, _ in to_print]) if ok else None
+    if mt is not None:
+        for (d, printed, s), m in zip(to_print, mt):
+            n_text += 1
+            if m.startswith('(') or m == 'bad-request' or unhx(m) != printed:
+                findings.append({'key': 'model-text', 'python': printed[-1200:], 'model': (unhx(m) if m[:1] == 'h' else m)[-1200:], 'source': s[-1200:],
+                                 'what': 'correspondence: Encoder.encode_string and the translated Encoder through the Printer model give different TEXTS'})
     # ---- 2. slicing
     sl = core.py_h(['mmslices %s (%s)' % (src.encode().hex(), ' '.join(hx(l) for l in db.lemmas)) for db, _, src in cases])
     model_lines, model_idx = [], []
@@ -223,11 +235,13 @@ def run(rep):
                 '(ASTs, token sequences, slices: exact); property oracles: parse(print(db)) == db by the real parser, printed tokens == '
                 'source tokens, every slice re-parses, is accepted by an independent strict Metamath verifier (all symbols, variables and '
                 'hypotheses declared; the lemma proved with its original proof and statement), floats in original order; plus a malformed stream',
-        'programs': len(sources), 'slices': n_slices, 'parser_outcomes': outcome, 'float_positions_checked': float_positions,
+        'programs': len(sources), 'texts_compared_exactly': n_text, 'slices': n_slices, 'parser_outcomes': outcome, 'float_positions_checked': float_positions,
         'disagreements_checked': len(findings),
         'samples': [cases[0][2][-600:]],
     })
-    rep.assumptions += ['the lark lexer (whitespace, comments, keyword terminals) and the printer\'s whitespace are outside the Lean model: tokens are compared',
+    rep.assumptions += ['the lark lexer (whitespace, comments, keyword terminals) and the printer\'s whitespace are outside the hand-written Lean model: tokens are compared; '
+                        'the parser callbacks, the grammar\'s statement rules and the Encoder are translated from the source text on every run (vlib/transmmast.py, tie: Pi2/MM/AstTie.lean); '
+                        'Printer is a hand-written model of the text the translator compares the class with, and its TEXT is compared exactly with the real one (mmtext)',
                         'slice_verifies is a theorem (C17.slice_verifies, for databases satisfying MM.WellFormedDb, about the Lean reference verifier Pi2/MM/Verify.lean, '
                         'which vlib/validate_verify.py compares with the independent Python verifier vlib/mm.py); the independent verifier is still run on every generated slice',
                         'one assertion per block (match_axiom registers only one conclusion per block); labels are unique']
